@@ -102,36 +102,53 @@ def gen_history(rnd):
             for n in range(1, rnd.choice([0, 0, 1, 2, 3]) + 1):
                 if rnd.random() < 0.85:           # occasionally a gap in the backup numbering
                     pre['#%s.%d#' % (p, n)] = 'backup-%s-%d\n' % (p, n)
-    ops = []
-    pending = {}       # path -> first mode
-    for i in range(rnd.randint(1, 12)):
-        p = rnd.choice(paths)
-        if p not in pending:
-            modes = ['w', 'w', 'w+', 'a', 'a+' if rnd.random() < 0.3 else 'a']
-            if p in pre:
-                modes.append('r+')
-            m = rnd.choice(modes)
-            pending[p] = m
-        else:
-            first = pending[p]
-            if 'a' in first:
-                m = rnd.choice(['a', 'r'])           # never re-open an append target in write mode
+    def gen_ops(existing, tag, nmax=12):
+        ops = []
+        pending = {}       # path -> first mode
+        for i in range(rnd.randint(1, nmax)):
+            p = rnd.choice(paths)
+            if p not in pending:
+                modes = ['w', 'w', 'w+', 'a', 'a+' if rnd.random() < 0.3 else 'a']
+                if p in existing:
+                    modes.append('r+')
+                m = rnd.choice(modes)
+                pending[p] = m
             else:
-                m = rnd.choice(['w', 'a', 'r+', 'r', 'a'])
-        text = ''.join('t%d-%d\n' % (i, j) for j in range(rnd.randint(0, 3)))
-        ops.append({'op': 'open', 'path': p, 'mode': m, 'text': text})
+                first = pending[p]
+                if 'a' in first:
+                    m = rnd.choice(['a', 'r'])           # never re-open an append target in write mode
+                else:
+                    m = rnd.choice(['w', 'a', 'r+', 'r', 'a'])
+            text = ''.join('%s%d-%d\n' % (tag, i, j) for j in range(rnd.randint(0, 3)))
+            ops.append({'op': 'open', 'path': p, 'mode': m, 'text': text})
+        return ops, set(pending)
+    ops, touched = gen_ops(set(pre), 't')
     end = rnd.choice(['write', 'write', 'write', 'close', 'write-write', 'close-write'])
-    return {'pre': pre, 'ops': ops, 'end': end}
+    hist = {'pre': pre, 'ops': ops, 'end': end}
+    if rnd.random() < 0.35:
+        # the same writer object serves further rounds: a rejected (discarded) or accepted run is followed by another one
+        # to the same output names in the same process
+        existing = set(pre) | (touched if end.startswith('write') else set())
+        more = []
+        for r in range(rnd.randint(1, 2)):
+            ops2, touched2 = gen_ops(existing, 'r%d-' % r, nmax=6)
+            end2 = rnd.choice(['write', 'write', 'close'])
+            more.append({'ops': ops2, 'end': end2})
+            if end2 == 'write':
+                existing |= touched2
+        hist['more'] = more
+    return hist
 
 
-def model_history(hist):
+def model_history(hist, ops=None, current=None):
     """-> (pending {path: {'first': mode, 'buf': str}}, reads expected per op index)"""
     pending = {}
     reads = {}
-    for i, op in enumerate(hist['ops']):
+    current = hist['pre'] if current is None else current
+    for i, op in enumerate(hist['ops'] if ops is None else ops):
         p, m, text = op['path'], op['mode'], op['text']
         if p not in pending:
-            buf = hist['pre'][p] if (m == 'r+') else ''
+            buf = current[p] if (m == 'r+') else ''
             pending[p] = {'first': m, 'buf': buf}
             if m == 'r+':
                 pending[p]['buf'] = text + buf[len(text):]
@@ -150,9 +167,9 @@ def model_history(hist):
     return pending, reads
 
 
-def expected_final(hist, pending):
+def expected_final(hist, pending, current=None):
     """Expected destination directory after write()."""
-    d = dict(hist['pre'])
+    d = dict(hist['pre'] if current is None else current)
     for p, e in pending.items():
         if 'a' in e['first']:
             d[p] = d.get(p, '') + e['buf']
@@ -178,14 +195,34 @@ def run_history(hist, b, tmp_root=None):
         for name, text in hist['pre'].items():
             with open(os.path.join(dest, name), 'w') as f:
                 f.write(text)
-        initial = snapshot(dest)
         w = fresh_writer(tmpd)
-        pending, reads = model_history(hist)
+        rounds = [{'ops': hist['ops'], 'end': hist['end']}] + list(hist.get('more', []))
+        for rno, rd in enumerate(rounds):
+            p_ = run_round(hist, rd, rno, w, dest, tmpd, b)
+            if p_:
+                if rno:
+                    p_ = ('later-round/' + p_[0], dict(p_[1], round=rno, rounds=[r_['end'] for r_ in rounds]))
+                return p_
+            if rno:
+                b.feat('rounds_after_the_first_on_one_writer')
+        return None
+    finally:
+        _AUDIT['on'] = False
+        shutil.rmtree(base, ignore_errors=True)
+        if tmp_root:
+            shutil.rmtree(tmpd, ignore_errors=True)
+
+
+def run_round(hist, rd, rno, w, dest, tmpd, b):
+    if True:
+        initial = snapshot(dest)
+        current = {k: v.decode() for k, v in initial.items()}
+        pending, reads = model_history(hist, rd['ops'], current)
         _AUDIT['roots'] = (dest,)
         _AUDIT['log'] = []
         _AUDIT['on'] = True
         try:
-            for i, op in enumerate(hist['ops']):
+            for i, op in enumerate(rd['ops']):
                 h = w.open(os.path.join(dest, op['path']), op['mode'])
                 if op['mode'] == 'r':
                     got = h.read()
@@ -208,13 +245,13 @@ def run_history(hist, b, tmp_root=None):
                 return ('deferral/write-call-on-destination', {'events': [[e[0], e[1], str(e[2])] for e in bad[:4]]})
         finally:
             _AUDIT['on'] = False
-        ends = hist['end'].split('-')
+        ends = rd['end'].split('-')
         state = initial
         for step, what in enumerate(ends):
             if what == 'write':
                 w.write()
                 b.hits += 1
-                want = {k: v.encode() for k, v in (expected_final(hist, pending) if step == 0 else
+                want = {k: v.encode() for k, v in (expected_final(hist, pending, current) if step == 0 else
                                                    {k: v.decode() for k, v in state.items()}).items()}
                 got = snapshot(dest)
                 if got != want:
@@ -236,11 +273,6 @@ def run_history(hist, b, tmp_root=None):
             if left:
                 return ('temporaries-left-behind', {'after': what, 'files': left[:5]})
         return None
-    finally:
-        _AUDIT['on'] = False
-        shutil.rmtree(base, ignore_errors=True)
-        if tmp_root:
-            shutil.rmtree(tmpd, ignore_errors=True)
 
 
 # ------------------------------------------------------------------ (b) crash enumeration
@@ -539,6 +571,8 @@ def run_case(params):
             try:
                 p = run_history(hist, b, tmp_root)
             except Exception as e:
+                if not harness.from_repo(e):
+                    raise         # an error of the harness/model is never a violation
                 import traceback
                 p = ('exception/%s' % type(e).__name__, {'error': repr(e), 'trace': traceback.format_exc()[-600:]})
             if p:
